@@ -16,7 +16,7 @@ ASSUMPTIONS = [
     "models have <= 8 tasks",
 ]
 PROBES = ["edge_FS", "edge_SS", "edge_FF", "edge_SF", "held_at_zero_FF", "held_at_zero_SF", "absence_hides_working",
-          "exempt_task"]
+          "exempt_task", "external_predecessor_checked"]
 
 
 def budget(tier):
@@ -30,7 +30,13 @@ def gen(rng, tier):
         focus["kinds"] = ks
     if rng.random() < 0.5:
         focus["density"] = 0.5
-    return C.gen_edit(rng, C.maybe_history(rng, C.forward_spec(rng, tier, focus), 0.3))
+    spec = C.gen_edit(rng, C.maybe_history(rng, C.forward_spec(rng, tier, focus), 0.3))
+    if rng.random() < 0.1 and not (spec.get("history") or {}).get("reload"):
+        # a predecessor that is not an element of the simulated workflow (a task of another project): its state is what it is
+        n = len(spec["model"]["tasks"])
+        spec["model"]["ext_preds"] = [[rng.randrange(n), rng.choice([0, 1, 2, 3]), rng.choice([0, 0, 1, 2, -1])]
+                                      for _ in range(rng.randint(1, 2))]
+    return spec
 
 
 def extra_candidates(spec):
@@ -38,6 +44,13 @@ def extra_candidates(spec):
         yield c
     for c in C.edit_candidates(spec):
         yield c
+    ep = spec["model"].get("ext_preds")
+    if ep:
+        for i in range(len(ep)):
+            c = dict(spec)
+            c["model"] = dict(spec["model"])
+            c["model"]["ext_preds"] = ep[:i] + ep[i + 1:]
+            yield c
 
 
 
@@ -64,6 +77,11 @@ def check_trace(res, tr):
     for tid in st.order:
         if st.exempt(tid):
             res.count("exempt_task")
+    ext = {}
+    for n_, (si, xk, xstate) in enumerate(tr.model.get("ext_preds", [])):
+        x = tr.built.ext[n_]
+        if int(x.state) == xstate:  # (a run that changed the outsider's state is judged by nothing here)
+            ext.setdefault(st.order[si], []).append((si, xk, xstate))
     for label, t, ph, sn in C.walk(rec):
         T = sn["T"]
         for tid in st.order:
@@ -99,6 +117,23 @@ def check_trace(res, tr):
                                 % (tid, label, p), t)
                     if s == WORKING and T[tid][1] < 1e-10 and not started[p]:
                         res.count("held_at_zero_SF")
+            for (xs, xk, xstate) in ext.get(tid, ()):
+                # predecessor outside the workflow: nobody updates it, the gates read its (constant) state
+                res.count("external_predecessor_checked")
+                x_started = xstate in (WORKING, FINISHED, 3)
+                bad = None
+                if xk == G.FS and s != NONE and xstate != FINISHED:
+                    bad = "is %s" % SNAME.get(s, s)
+                elif xk == G.SS and s != NONE and not x_started:
+                    bad = "is %s" % SNAME.get(s, s)
+                elif xk == G.FF and s == FINISHED and xstate != FINISHED:
+                    bad = "is FINISHED"
+                elif xk == G.SF and s == FINISHED and not x_started:
+                    bad = "is FINISHED"
+                if bad:
+                    res.add(G.KIND_NAME[xk], "C01.dep.%s.predecessor_outside_workflow" % G.KIND_NAME[xk],
+                            "%s %s at %s while its %s predecessor, a task that is not registered in this workflow, is %s"
+                            % (tid, bad, label, G.KIND_NAME[xk], SNAME.get(xstate, xstate)), t)
             if tid in prev and RANK.get(s, 2) < RANK.get(prev[tid], 2):
                 res.add("monotone", "C01.monotone.%s_to_%s" % (SNAME.get(prev[tid]), SNAME.get(s)),
                         "%s went from %s back to %s at %s" % (tid, SNAME.get(prev[tid]), SNAME.get(s), label), t)
